@@ -169,7 +169,7 @@ class C16(Check):
             else gens.gsqlx_case(ordinals=False, **kw))
 
     def examples(self, tier):
-        return 60 if tier == "quick" else 2500
+        return 32 if tier == "quick" else 2500
 
     # ------------------------------------------------------------------
 
